@@ -40,6 +40,11 @@ HAND_SEEDS = {
 1 0.5 0.4 100 0.3
 2 0.6 0.5 110 0.4
 """,
+    # noise parameters only: a two-port file without network data
+    "h_v1_noiseonly.s2p": b"""# GHz H RI R 50
+1 0.5 0.4 100 0.3
+2 0.6 0.5 110 0.4
+""",
     "h_v2_full.ts": b"""! Touchstone 2
 [Version] 2.0
 # GHz S RI R 50
@@ -137,7 +142,7 @@ _num = re.compile(rb"^[+-]?(\d+\.?\d*|\.\d+)([eE][+-]?\d+)?j?$")
 
 def mutate(data, rng):
     """one structure-aware mutation (may be composed)"""
-    n = int(rng.integers(0, 20))
+    n = int(rng.integers(0, 21))
     if not data:
         return bytes(rng.integers(0, 256, int(rng.integers(0, 20)), dtype=np.uint8))
     if n == 0:      # truncate
@@ -180,6 +185,11 @@ def mutate(data, rng):
             b_ = int(rng.integers(0, len(lines)))
             lines[a], lines[b_] = lines[b_], lines[a]
         return b"\n".join(lines)
+    elif n == 20:   # delete a block of consecutive lines (a whole section)
+        lines = data.split(b"\n")
+        a = int(rng.integers(0, len(lines)))
+        b_ = min(len(lines), a + int(rng.integers(2, 8)))
+        return b"\n".join(lines[:a] + lines[b_:])
     elif n == 10:   # byte flips
         b_ = bytearray(data)
         for _ in range(int(rng.integers(1, 4))):
